@@ -413,6 +413,11 @@ class C06(Sim):
         tainted = any(name in o.sources for o in self.ref.values() if o.producer in ("boundary", "subdivide"))
         if tainted:
             return False  # its boundary / editing-block relatives hold views of the same vectors: outside the statement
+        vs = self.pool[name].vertices
+        if len({id(vs[i]) for i in range(len(vs))}) < len(vs):
+            # the mesh lists one vector OBJECT twice (open ring, the outline of a face-less surface ...; a copy keeps that structure): an
+            # in-place edit of one entry then moves the other by construction - intra-mesh sharing is not what the statement is about
+            return False
         if rf.producer in ("copy", "merge"):
             return True
         if not rf.clean:
